@@ -177,22 +177,18 @@ def TRUE():
 
 
 def raised_in_repo(exc):
-    """True if the exception was raised by code of /repo (or code cut from its source), not by harness code"""
+    """True if code of /repo (or code cut from its source) is on the traceback of the exception, i.e. it was raised by
+    or propagated through the code under test; exceptions of harness code alone are harness errors"""
     import os
-    tb = exc.__traceback__
-    last = None
-    while tb is not None:
-        last = tb.tb_frame.f_code.co_filename
-        tb = tb.tb_next
-    if last is None:
-        return False
     from . import core
-    if last.startswith('<repo:'):
-        return True
-    rp = os.path.realpath(last)
-    if rp.startswith(os.path.realpath(core.VERIF) + os.sep):
-        return False
-    return rp.startswith(os.path.realpath(core.REPO) + os.sep) or ('site-packages' in rp) or rp.startswith('<')
+    repo = os.path.realpath(core.REPO) + os.sep
+    tb = exc.__traceback__
+    while tb is not None:
+        fn = tb.tb_frame.f_code.co_filename
+        if fn.startswith('<repo:') or os.path.realpath(fn).startswith(repo):
+            return True
+        tb = tb.tb_next
+    return False
 
 
 class Raised:
